@@ -2,6 +2,7 @@ package props
 
 import (
 	"fmt"
+	"os"
 	"strings"
 
 	"Havoc/verifsim/simrt"
@@ -33,16 +34,19 @@ func (c05) Gen(seed uint64, run int, tier string) *Plan {
 	p := &Plan{Engine: EngineVersion, Property: "C05", Seed: seed, Run: run, Tier: tier, Cfg: cfg, Knobs: map[string]int{}}
 	p.Knobs["demons"] = 2 + r.Intn(2)
 	p.Knobs["ops"] = 1
+	// half of the runs have an SMB child below the first agent: its tasks travel inside the
+	// parent's queue, its callbacks inside the parent's check-ins
+	p.Knobs["pivot"] = r.Intn(2)
 	p.Policy = simrt.Policy{Name: "atomic"}
 	if r.Intn(5) == 0 {
 		p.Policy = simrt.Policy{Name: "random", P: 0.02}
 	}
 	n := 8 + r.Intn(25)
 	for i := 0; i < n; i++ {
-		d := r.Intn(p.Knobs["demons"])
+		d := r.Intn(p.Knobs["demons"] + p.Knobs["pivot"])
 		switch x := r.Intn(100); {
 		case x < 25:
-			p.Actions = append(p.Actions, Action{Kind: "task", B: d, D: r.Intn(500)})
+			p.Actions = append(p.Actions, Action{Kind: "task", B: d, D: r.Intn(500), A: r.Intn(4)})
 		case x < 40:
 			p.Actions = append(p.Actions, Action{Kind: "checkin", B: d})
 		default:
@@ -57,7 +61,10 @@ type c05Agent struct {
 	issued     []uint32        // request ids issued to this agent, in order
 	handed     map[uint32]bool // taken at a check-in
 	completed  map[uint32]bool // a final callback was processed
+	bofcb      map[uint32]bool // object-file tasks whose result goes to a script (HasCallback)
 	dead       bool
+	parent     *c05Agent // SMB parent (nil: speaks HTTP itself)
+	seen       int       // tasks of d.Tasks already accounted for
 }
 
 func (c05) Exec(p *Plan, dir string) *Result {
@@ -73,7 +80,40 @@ func (c05) Exec(p *Plan, dir string) *Result {
 	wit := w.Operators[0]
 	var ags []*c05Agent
 	for _, d := range w.Demons {
-		ags = append(ags, &c05Agent{d: d, handed: map[uint32]bool{}, completed: map[uint32]bool{}})
+		ags = append(ags, &c05Agent{d: d, handed: map[uint32]bool{}, completed: map[uint32]bool{}, bofcb: map[uint32]bool{}})
+	}
+	pivot := p.Knob("pivot", 0) == 1
+	if pivot {
+		// the child sits right behind its parent in the list: "another agent's id" for the parent
+		// is then an id issued to its own pivot child
+		ch := w.NewDemon(uint32(0x01000000+r.Intn(0x7e000000)), 0)
+		ch.Key, ch.IV, ch.Meta = randBytes(r, 32), randBytes(r, 16), genMeta(r, 9)
+		w.RegisterVia(ags[0].d, ch)
+		wit.Pump()
+		ca := &c05Agent{d: ch, handed: map[uint32]bool{}, completed: map[uint32]bool{}, bofcb: map[uint32]bool{}, parent: ags[0]}
+		ags = append([]*c05Agent{ags[0], ca}, ags[1:]...)
+		res.Probe("pivot-topologies")
+	}
+	// checkin lets the agent talk to the teamserver (through its parent if it is a pivot child) and
+	// notes, for every agent, which request ids have now been handed out
+	checkin := func(ag *c05Agent) int {
+		n0 := len(ag.d.Tasks)
+		if ag.parent != nil {
+			pk := ag.d.Out
+			ag.d.Out = nil
+			w.SendUp(ag.d, pk)
+		} else {
+			_, ts := w.Checkin(ag.d)
+			if len(ag.d.Children) > 0 {
+				w.Route(ag.d, ts)
+			}
+		}
+		for _, x := range ags {
+			for ; x.seen < len(x.d.Tasks); x.seen++ {
+				x.handed[x.d.Tasks[x.seen].RID] = true
+			}
+		}
+		return len(ag.d.Tasks) - n0
 	}
 	w.Sim.SetPolicy(p.Policy)
 	res.FP(p.Policy.Name, len(ags), p.Cfg.SendLogs)
@@ -98,28 +138,34 @@ func (c05) Exec(p *Plan, dir string) *Result {
 		a := p.Actions[i]
 		w.Sim.SetAction(i)
 		ag := ags[a.B%len(ags)]
+		if ag.dead || (ag.parent != nil && ag.parent.dead) {
+			continue
+		}
 		switch a.Kind {
 		case "task":
-			if ag.dead {
-				continue
-			}
 			taskN++
 			rid := uint32(0x0d000000 + taskN)
-			wit.Task(ag.d.NameID(), fmt.Sprintf("%08x", rid), world.CmdSleep, "sleep", map[string]any{"Arguments": fmt.Sprintf("%d;1", a.D)})
+			if a.A == 0 {
+				// an object file run on behalf of a script: the result goes to the script, not the console
+				wit.Task(ag.d.NameID(), fmt.Sprintf("%08x", rid), world.CmdInlineExecute, "inline-execute go", map[string]any{"HasCallback": "true", "FunctionName": "go",
+					"Binary": "b2JqZWN0", "Arguments": "YXJncw==", "Flags": "default"})
+				ag.bofcb[rid] = true
+				res.Probe("script-bof-tasks")
+			} else {
+				wit.Task(ag.d.NameID(), fmt.Sprintf("%08x", rid), world.CmdSleep, "sleep", map[string]any{"Arguments": fmt.Sprintf("%d;1", a.D)})
+			}
 			w.Sim.Settle()
 			ag.issued = append(ag.issued, rid)
 			res.FP("task")
 		case "checkin":
-			_, ts := w.Checkin(ag.d)
-			for _, t := range ts {
-				ag.handed[t.RID] = true
-			}
-			res.FP("checkin", len(ts) > 0)
+			n := checkin(ag)
+			res.FP("checkin", n > 0, ag.parent != nil)
 		case "callback":
 			cb := world.Callbacks[a.C%len(world.Callbacks)]
 			cr := simrt.NewRand(uint64(a.D) + 17)
 			var sent world.Sent
 			body := cb.Build(cr, &sent)
+			_ = body
 			// choose the request id of the requested class; fall back to never-issued
 			class := a.A % ridClasses
 			var rid uint32
@@ -150,31 +196,35 @@ func (c05) Exec(p *Plan, dir string) *Result {
 				class = ridNeverIssued
 				rid = 0x5eed0000 + uint32(cr.Intn(0xffff))
 			}
+			if class == ridOutstanding && ag.bofcb[rid] && cr.Intn(2) == 0 {
+				// the task's own final callback
+				for _, x := range world.Callbacks {
+					if x.Name == []string{"bof-ran-ok", "bof-could-not-run"}[cr.Intn(2)] {
+						cb = x
+					}
+				}
+				res.Probe("script-bof-finals")
+			}
+			body = cb.Build(cr, &sent)
 			valid := class == ridOutstanding || class == ridQueuedNotHandedOut
 			exempt := cb.Cmd == world.CmdSocket || cb.Cmd == world.CmdPivot || (cb.Cmd == world.CmdBeaconOutput && p.Cfg.SendLogs)
-			res.FP("cb", cb.Name, class)
+			res.FP("cb", cb.Name, class, ag.parent != nil, len(ag.d.Children) > 0)
 			if !valid {
 				// hand out whatever is queued first, so that the callback's check-in carries no tasks
 				// (handing out tasks announces their size on the console)
 				for k := 0; k < 5; k++ {
-					_, ts := w.Checkin(ag.d)
-					for _, t := range ts {
-						ag.handed[t.RID] = true
-					}
-					if len(ts) == 0 {
+					if checkin(ag) == 0 && (ag.parent == nil || len(ag.parent.d.Out) == 0) {
 						break
 					}
 				}
 			}
-			before := TakeSnap(w, SnapOpts{Witness: wit})
+			nEv := len(wit.Events)
+			before := TakeSnap(w, SnapOpts{Witness: wit, SkipTaskAnnouncements: pivot})
 			ag.d.Out = append(ag.d.Out, world.Pkg{Cmd: cb.Cmd, RID: rid, Body: body})
 			// a check-in without tasks being taken would be cleaner, but GET_JOB is what a Demon sends
-			_, ts := w.Checkin(ag.d)
-			for _, t := range ts {
-				ag.handed[t.RID] = true
-			}
+			checkin(ag)
 			wit.Pump()
-			after := TakeSnap(w, SnapOpts{Witness: wit})
+			after := TakeSnap(w, SnapOpts{Witness: wit, SkipTaskAnnouncements: pivot})
 			diff := before.Diff(after)
 			// the check-in itself hands out queued tasks: that is not an effect of the callback
 			var eff []string
@@ -186,6 +236,12 @@ func (c05) Exec(p *Plan, dir string) *Result {
 			}
 			if !valid && !exempt {
 				res.Probe("gated-callbacks-checked")
+				if len(eff) > 0 && os.Getenv("VERIF_DEBUG") != "" {
+					for _, e := range wit.Events[nEv:] {
+						_, cmd, m, _ := world.OutputOf(e)
+						fmt.Fprintf(os.Stderr, "C05 new event %d/%d cmd=%s %v %s\n", e.Pkg.Head.Event, e.Pkg.Body.SubEvent, cmd, m, short(string(e.Raw), 400))
+					}
+				}
 				if len(eff) > 0 {
 					why := []string{"outstanding", "never issued", "issued to another agent", "already completed", "queued"}[class]
 					res.Violate("C05", "effect-without-outstanding-task", fmt.Sprintf("%s:%s", []string{"", "never-issued", "other-agents-id", "completed-id", ""}[class], effectClass(eff)),
